@@ -169,7 +169,7 @@ class Harness:
         vec = cp['vec']
         n = nl + 3 if cp.get('plus3', True) else nl
         lst = [int(vec[l % len(vec)]) for l in range(n)]
-        return lst if cp.get('dtype', 'list') == 'list' else np.array(lst, dtype=fitting_dtype(cp['dtype'], max(lst)))
+        return lst if cp.get('dtype', 'list') == 'list' else np.array(lst, dtype=fitting_dtype(cp['dtype'], max(lst) if lst else 0))
 
     def a_ctrl(self):
         ac = self.case.get('actrl')
